@@ -736,4 +736,193 @@ Section Proofs.
   Proof. intros. apply verdict_ok_laws, contribution_verdict_ok; assumption. Qed.
 
 
+  (* ============================================================================================
+     attester_slashing
+     ============================================================================================ *)
+  Lemma slashable_data_spec d1 d2 : is_slashable_attestation_data d1 d2 = is_slashable_attestation_data_spec d1 d2.
+  Proof.
+    unfold is_slashable_attestation_data, is_slashable_attestation_data_spec, is_surround_vote, is_double_vote,
+      att_data_eqb, data_equal, checkpoint_eqb.
+    rewrite orb_comm. rewrite !andb_assoc. reflexivity.
+  Qed.
+
+  Lemma indices_set_ok_spec ia : indices_set_ok b (ia_indices ia) = indexed_attestation_static b ia.
+  Proof.
+    unfold indices_set_ok, indexed_attestation_static.
+    rewrite (N.leb_antisym (MAX_VALIDATORS_PER_COMMITTEE c) (lenN (ia_indices ia))).
+    destruct (MAX_VALIDATORS_PER_COMMITTEE c <? lenN (ia_indices ia)); cbn [negb].
+    { rewrite andb_false_r. reflexivity. }
+    rewrite andb_true_r. destruct (lenN (ia_indices ia) =? 0); cbn [negb andb]; [reflexivity|].
+    rewrite <- go_sorted_distinct. destruct (go_is_sorted (ia_indices ia)); reflexivity.
+  Qed.
+
+  (* ZigZagJoin on strictly increasing lists is the intersection (indices below the 2^64-1 marker) *)
+  Lemma strictly_increasing_tail x l : strictly_increasing (x :: l) = true ->
+    strictly_increasing l = true /\ Forall (fun y => x < y) l.
+  Proof.
+    revert x. induction l as [|y l IH]; intros x H; [split; [reflexivity | constructor]|].
+    cbn [strictly_increasing] in H. apply andb_prop in H. destruct H as [Hxy Hs].
+    split; [exact Hs|]. destruct (IH y Hs) as [_ Hf]. constructor; [lia|].
+    eapply Forall_impl; [|exact Hf]. cbn. intros. lia.
+  Qed.
+
+  Lemma memN_false_lt x l : Forall (fun y => x < y) l -> memN x l = false.
+  Proof. induction 1 as [|y l Hy Hf IH]; [reflexivity|]. cbn. replace (x =? y) with false by lia. exact IH. Qed.
+
+  Lemma intersection_nil_r l : intersection l [] = [].
+  Proof. induction l as [|a l IH]; [reflexivity|]. exact IH. Qed.
+
+  Lemma zigzag_nil l : Forall (fun x => x < max64) l -> zigzag_in l [] = [].
+  Proof.
+    induction 1 as [|x l Hx Hf IH]; [reflexivity|]. cbn [zigzag_in].
+    replace (x =? max64) with false by lia. exact IH.
+  Qed.
+
+  Lemma zigzag_spec l1 : forall l2, strictly_increasing l1 = true -> strictly_increasing l2 = true ->
+    Forall (fun x => x < max64) l1 -> zigzag_in l1 l2 = intersection l1 l2.
+  Proof.
+    induction l1 as [|x l1 IH1]; intros l2 H1 H2 Hm; [reflexivity|].
+    destruct (strictly_increasing_tail _ _ H1) as [H1' Hgt1]. inversion Hm as [|? ? Hx Hm']; subst.
+    induction l2 as [|y l2 IH2].
+    - rewrite zigzag_nil by assumption. rewrite intersection_nil_r. reflexivity.
+    - destruct (strictly_increasing_tail _ _ H2) as [H2' Hgt2].
+      cbn [zigzag_in]. change ((fix inner (ys : list N) : list N := match ys with
+        | [] => if x =? max64 then x :: zigzag_in l1 [] else zigzag_in l1 []
+        | y0 :: ys' => if x =? y0 then x :: zigzag_in l1 ys' else if x <? y0 then zigzag_in l1 ys else inner ys' end) l2)
+        with (zigzag_in (x :: l1) l2).
+      assert (Hmem : forall a, In a l1 -> (a =? x) = false /\ (x <? a) = true).
+      { intros a Ha. rewrite Forall_forall in Hgt1. specialize (Hgt1 a Ha). lia. }
+      destruct (x =? y) eqn:Exy.
+      + apply N.eqb_eq in Exy. subst y. rewrite (IH1 l2 H1' H2' Hm').
+        unfold intersection. cbn [filter memN existsb]. rewrite N.eqb_refl. cbn [orb]. f_equal.
+        apply filter_ext_in. intros a Ha. destruct (Hmem a Ha) as [Hax _]. rewrite Hax. reflexivity.
+      + destruct (x <? y) eqn:Elt.
+        * rewrite (IH1 (y :: l2) H1' H2 Hm').
+          unfold intersection. cbn [filter]. 
+          assert (Hxm : memN x (y :: l2) = false).
+          { apply memN_false_lt. constructor; [lia|]. eapply Forall_impl; [|exact Hgt2]. cbn. intros. lia. }
+          rewrite Hxm. reflexivity.
+        * rewrite (IH2 H2'). unfold intersection. apply filter_ext_in. intros a Ha.
+          cbn [memN existsb]. replace (a =? y) with false; [reflexivity|].
+          destruct Ha as [<-|Ha]; [lia|]. destruct (Hmem a Ha). lia.
+  Qed.
+
+  Lemma filter_slashable_none h l : filter_slashable b h l = None -> exists i, In i l /\ validator b h i = None.
+  Proof.
+    induction l as [|i l IH]; [discriminate|]. cbn [filter_slashable].
+    destruct (validator b h i) eqn:Ev; [|intros _; exists i; split; [left; reflexivity | exact Ev]].
+    destruct (filter_slashable b h l); [discriminate|]. intros _. destruct (IH eq_refl) as [j [Hj Hv]].
+    exists j. split; [right; exact Hj | exact Hv].
+  Qed.
+
+  Lemma filter_slashable_some h l r : filter_slashable b h l = Some r ->
+    (lenN r =? 0) = negb (any_slashable b h l).
+  Proof.
+    revert r. induction l as [|i l IH]; intros r H.
+    - injection H as <-. reflexivity.
+    - cbn [filter_slashable] in H. unfold any_slashable. cbn [existsb].
+      destruct (validator b h i) as [v|]; [|discriminate].
+      destruct (filter_slashable b h l) as [r'|]; [|discriminate]. injection H as <-.
+      change (is_slashable_validator v (epc_epoch b h)) with (is_slashable v (epc_epoch b h)).
+      destruct (is_slashable v (epc_epoch b h)); cbn [orb negb].
+      + unfold lenN. cbn [length]. lia.
+      + apply (IH r' eq_refl).
+  Qed.
+
+  Lemma validator_pubkeys_out h l i : In i l -> validator_count b h <= i -> validator_pubkeys b h l = None.
+  Proof.
+    induction l as [|x l IH]; [contradiction|]. intros [->|Hi] Hc; cbn [validator_pubkeys].
+    - replace (i <? validator_count b h) with false by lia. reflexivity.
+    - destruct (x <? validator_count b h); [|reflexivity]. rewrite (IH Hi Hc).
+      destruct (pubkey_of b h x); reflexivity.
+  Qed.
+
+  (* the registry answers for every index below its length *)
+  Definition registry_coherent : Prop := forall h i, i < validator_count b h -> validator b h i <> None.
+  (* ValidatorSet.ZigZagJoin uses 2^64-1 as its end marker: attesting indices are below it *)
+  Definition below_marker (sl : attester_slashing) : Prop := Forall (fun x => x < max64) (ia_indices (as_1 sl)).
+
+  Lemma attester_slashing_verdict_ok sl : registry_coherent -> below_marker sl ->
+    verdict_ok (validate_attester_slashing b sl) (attester_slashing_conditions b sl).
+  Proof.
+    intros Hreg Hmk.
+    unfold validate_attester_slashing, attester_slashing_conditions, verdict_ok, attester_slashing_static.
+    rewrite slashable_data_spec, !indices_set_ok_spec.
+    step (is_slashable_attestation_data_spec (ia_data (as_1 sl)) (ia_data (as_2 sl))); [|fin].
+    step (indexed_attestation_static b (as_1 sl)); [|fin].
+    step (indexed_attestation_static b (as_2 sl)); [|fin].
+    assert (Hs1 : strictly_increasing (ia_indices (as_1 sl)) = true).
+    { unfold indexed_attestation_static in E0. apply andb_prop in E0. destruct E0 as [E0 _]. apply andb_prop in E0. tauto. }
+    assert (Hs2 : strictly_increasing (ia_indices (as_2 sl)) = true).
+    { unfold indexed_attestation_static in E1. apply andb_prop in E1. destruct E1 as [E1 _]. apply andb_prop in E1. tauto. }
+    rewrite (zigzag_spec _ _ Hs1 Hs2 Hmk).
+    step (attester_slashable_all_seen b (intersection (ia_indices (as_1 sl)) (ia_indices (as_2 sl)))).
+    { step (head_info b); fin. }
+    step (head_info b); [|fin].
+    rewrite !indexed_att_valid_spec. unfold is_valid_indexed_attestation, attester_slashing_dynamic. rewrite E0, E1.
+    cbn [andb].
+    destruct (filter_slashable b e (intersection (ia_indices (as_1 sl)) (ia_indices (as_2 sl)))) as [r|] eqn:Ef.
+    - rewrite (filter_slashable_some _ _ _ Ef).
+      step (any_slashable b e (intersection (ia_indices (as_1 sl)) (ia_indices (as_2 sl)))).
+      2:{ fin. }
+      step (indexed_attestation_signature b e (as_1 sl)); [|fin].
+      step (indexed_attestation_signature b e (as_2 sl)); fin.
+    - destruct (filter_slashable_none _ _ Ef) as [i [Hi Hv]].
+      assert (Hi1 : In i (ia_indices (as_1 sl))) by (unfold intersection in Hi; apply filter_In in Hi; tauto).
+      assert (Hout : validator_count b e <= i).
+      { destruct (N.lt_ge_cases i (validator_count b e)) as [Hlt|Hge]; [|exact Hge]. exfalso. exact (Hreg e i Hlt Hv). }
+      assert (Hsig : indexed_attestation_signature b e (as_1 sl) = false).
+      { unfold indexed_attestation_signature. rewrite (validator_pubkeys_out _ _ _ Hi1 Hout). reflexivity. }
+      eval_conds. rewrite Hsig. fin.
+  Qed.
+
+  Theorem attester_slashing_laws sl : registry_coherent -> below_marker sl ->
+    verdict_laws (validate_attester_slashing b sl) (attester_slashing_conditions b sl).
+  Proof. intros. apply verdict_ok_laws, attester_slashing_verdict_ok; assumption. Qed.
+
 End Proofs.
+
+(* ------------------------------------------------------------------------------------------------
+   the four laws per topic, in the shape of the property statement
+   ------------------------------------------------------------------------------------------------ *)
+Definition gossip_verdict_laws (r : result) (cs : list cond) : Prop :=
+  (all_conditions cs = true -> fst r = ACCEPT) /\                 (* accept_complete *)
+  (fst r = ACCEPT -> all_conditions cs = true) /\                 (* accept_sound *)
+  (only_ignore_conditions_fail cs = true -> fst r = IGNORE) /\    (* timing_only_is_ignore *)
+  (snd r <> [] -> fst r = ACCEPT).                                (* marks_only_on_accept *)
+
+Lemma laws_conj r cs : verdict_laws r cs -> gossip_verdict_laws r cs.
+Proof. intros [A B C D]. repeat split; assumption. Qed.
+
+Lemma voluntary_exit_verdict b m : exit_bounds b ->
+  gossip_verdict_laws (validate_voluntary_exit b m) (voluntary_exit_conditions b m).
+Proof. intros. apply laws_conj, exit_laws; assumption. Qed.
+Lemma proposer_slashing_verdict b ps :
+  gossip_verdict_laws (validate_proposer_slashing b ps) (proposer_slashing_conditions b ps).
+Proof. apply laws_conj, proposer_slashing_laws. Qed.
+Lemma attester_slashing_verdict b sl : registry_coherent b -> below_marker sl ->
+  gossip_verdict_laws (validate_attester_slashing b sl) (attester_slashing_conditions b sl).
+Proof. intros. apply laws_conj, attester_slashing_laws; assumption. Qed.
+Lemma attestation_verdict b subnet att : cfg_wf (cfg b) -> att_wf (a_data att) -> counts_wf b ->
+  gossip_verdict_laws (validate_attestation b subnet att) (attestation_conditions b subnet att).
+Proof. intros. apply laws_conj, attestation_laws; assumption. Qed.
+Lemma aggregate_verdict b sa : cfg_wf (cfg b) -> att_wf (a_data (ap_aggregate (sa_msg sa))) -> committee_coherent b ->
+  gossip_verdict_laws (validate_aggregate b sa) (aggregate_conditions b sa).
+Proof. intros. apply laws_conj, aggregate_laws; assumption. Qed.
+Lemma block_verdict b blk : cfg_wf (cfg b) -> b_slot blk < two64 -> fin_wf b ->
+  gossip_verdict_laws (validate_block b blk) (block_conditions b blk).
+Proof. intros. apply laws_conj, block_laws; assumption. Qed.
+Lemma sync_message_verdict b subnet m : sm_slot m < two64 ->
+  gossip_verdict_laws (validate_sync_message b subnet m) (sync_message_conditions b subnet m).
+Proof. intros. apply laws_conj, sync_message_laws; assumption. Qed.
+Lemma contribution_verdict b sc : c_slot (cap_contribution (sc_msg sc)) < two64 ->
+  gossip_verdict_laws (validate_contribution b sc) (contribution_conditions b sc).
+Proof. intros. apply laws_conj, contribution_laws; assumption. Qed.
+
+(* the marks of an ACCEPT are exactly the topic's seen-cache entries of the message *)
+Lemma accept_marks_exit b m : fst (validate_voluntary_exit b m) = ACCEPT ->
+  snd (validate_voluntary_exit b m) = [MkExit (ex_index m)].
+Proof.
+  unfold validate_voluntary_exit. destruct (seen_exit b (ex_index m)); [discriminate|].
+  destruct (head_info b); [|discriminate]. destruct (exit_valid b e m); [reflexivity | discriminate].
+Qed.
